@@ -1,12 +1,361 @@
-(* Generic facts about the interpreter of Parse/Peg.v (any grammar). *)
+(* C07: what an accepted input consists of.  For every grammar: when the interpreter of Parse/Peg.v matches, the text
+   it consumed is exactly an interleaving of filler (white space, comments) and of the texts matched by terminals, in
+   order - nothing is skipped in any other way - and the leaves kept in the match tree are those terminal texts that
+   are not under a Suppress. *)
 From Coq Require Import String Ascii List Bool Arith Lia.
 From Wrap Require Import Base.Str Parse.Peg.
 Import ListNotations.
 Open Scope list_scope.
 
-(* a grammar whose Module rule ends in StringEnd accepts only when the whole input has been consumed *)
-Lemma run_term_end : forall st its st', run_term TEnd st = Match its st' -> rest st' = [].
+(* Cov s l r: s = filler t1 filler t2 ... filler r with l = [t1; t2; ...] *)
+Inductive Cov : chars -> list chars -> chars -> Prop :=
+| Cov_done : forall s, Cov s [] s
+| Cov_fill : forall s l r, Cov (skip_filler s) l r -> Cov s l r
+| Cov_ign : forall s l r, Cov (skip_ignorables (length s) s) l r -> Cov s l r
+| Cov_tok : forall t s l r, Cov s l r -> Cov (t ++ s) (t :: l) r.
+
+Lemma Cov_app : forall a l1 b, Cov a l1 b -> forall l2 c, Cov b l2 c -> Cov a (l1 ++ l2) c.
 Proof.
-  intros st its st' H. unfold run_term in H. cbn [pre_term] in H.
-  destruct (rest (pre st)) eqn:E; [|discriminate]. inversion H; subst. exact E.
+  intros a l1 b H. induction H; intros l2 c H2; cbn [app].
+  - exact H2.
+  - apply Cov_fill. apply IHCov. exact H2.
+  - apply Cov_ign. apply IHCov. exact H2.
+  - apply Cov_tok. apply IHCov. exact H2.
+Qed.
+
+(* leaves of a match tree, in order *)
+Fixpoint leaves_v (v : value) : list chars :=
+  match v with
+  | VStr s => [chars_of s]
+  | VNode _ its => (fix go (l : list item) : list chars := match l with [] => [] | it :: r => leaves_v (snd it) ++ go r end) its
+  end.
+Definition leaves (its : list item) : list chars := flat_map (fun it => leaves_v (snd it)) its.
+Lemma leaves_node : forall tag its, leaves_v (VNode tag its) = leaves its.
+Proof. intros tag its. cbn [leaves_v]. induction its as [|it r IH]; [reflexivity|]. cbn [leaves flat_map]. rewrite IH. reflexivity. Qed.
+Lemma leaves_app : forall a b, leaves (a ++ b) = leaves a ++ leaves b.
+Proof. intros a b. unfold leaves. apply flat_map_app. Qed.
+Lemma leaves_names : forall n its, leaves (map (add_name n) its) = leaves its.
+Proof. intros n its. unfold leaves. induction its as [|it r IH]; [reflexivity|]. cbn [map flat_map]. rewrite IH. reflexivity. Qed.
+
+(* a trace: the terminal texts in order, each flagged kept (true) or suppressed (false) *)
+Definition trace := list (bool * chars).
+Definition kept (tr : trace) : list chars := map snd (filter fst tr).
+Definition hide (tr : trace) : trace := map (fun p => (false, snd p)) tr.
+Lemma kept_app : forall a b, kept (a ++ b) = kept a ++ kept b.
+Proof. intros a b. unfold kept. rewrite filter_app, map_app. reflexivity. Qed.
+Lemma kept_hide : forall tr, kept (hide tr) = [].
+Proof. induction tr as [|p r IH]; [reflexivity|]. exact IH. Qed.
+Lemma texts_hide : forall tr, map snd (hide tr) = map snd tr.
+Proof. induction tr as [|p r IH]; [reflexivity|]. unfold hide in *. cbn [map snd]. f_equal. exact IH. Qed.
+
+(* ---- every scanner returns a suffix of what it was given ---- *)
+Definition suffix (a b : chars) : Prop := exists u, b = u ++ a.
+Lemma suffix_refl : forall a, suffix a a. Proof. intros a. exists []. reflexivity. Qed.
+Lemma suffix_trans : forall a b c, suffix a b -> suffix b c -> suffix a c.
+Proof. intros a b c [u Hu] [v Hv]. exists (v ++ u). subst. rewrite app_assoc. reflexivity. Qed.
+Lemma suffix_cons : forall a b c, suffix a b -> suffix a (c :: b).
+Proof. intros a b c [u Hu]. exists (c :: u). subst. reflexivity. Qed.
+Lemma suffix_opt_cons : forall a b c, suffix a b -> suffix a (c :: b). Proof. exact suffix_cons. Qed.
+
+Lemma span_suffix : forall f s, suffix (span f s) s.
+Proof. intros f s. induction s as [|c r IH]; [apply suffix_refl|]. cbn [span]. destruct (f c); [apply suffix_cons; exact IH | apply suffix_refl]. Qed.
+Lemma skip_ws_suffix : forall s, suffix (skip_ws s) s.
+Proof. induction s as [|c r IH]; [apply suffix_refl|]. cbn [skip_ws]. destruct (is_white c); [apply suffix_cons; exact IH | apply suffix_refl]. Qed.
+
+Lemma line_comment_suffix : forall n s, length s <= n -> suffix (line_comment s) s.
+Proof.
+  induction n as [|n IH]; intros s H.
+  - destruct s; [apply suffix_refl | cbn in H; lia].
+  - destruct s as [|c r]; [apply suffix_refl|]. cbn [line_comment]. destruct (Nat.eqb (code c) 10); [apply suffix_refl|].
+    destruct r as [|d r']; [exists [c]; reflexivity|]. cbn [length] in H.
+    destruct (andb (Nat.eqb (code c) 92) (Nat.eqb (code d) 10)).
+    + apply suffix_cons, suffix_cons. apply IH. lia.
+    + apply suffix_cons. apply IH. cbn [length]. lia.
+Qed.
+Lemma block_comment_suffix : forall n s r, length s <= n -> block_comment s = Some r -> suffix r s.
+Proof.
+  induction n as [|n IH]; intros s r H E.
+  - destruct s; [discriminate | cbn in H; lia].
+  - destruct s as [|c t]; [discriminate|]. cbn [block_comment] in E. destruct t as [|d t']; [discriminate|].
+    destruct (andb (Nat.eqb (code c) 42) (Nat.eqb (code d) 47)).
+    + inversion E; subst. apply suffix_cons, suffix_cons, suffix_refl.
+    + apply suffix_cons. apply (IH (d :: t')); [cbn [length] in *; lia | exact E].
+Qed.
+Lemma comment_suffix : forall s r, comment s = Some r -> suffix r s.
+Proof.
+  intros s r H. unfold comment in H. destruct s as [|a [|b t]]; try discriminate.
+  destruct (Nat.eqb (code a) 47); [|discriminate]. destruct (Nat.eqb (code b) 42).
+  - apply suffix_cons, suffix_cons. apply (block_comment_suffix (length t) t r (le_n _) H).
+  - destruct (Nat.eqb (code b) 47); [|discriminate]. inversion H; subst. apply suffix_cons, suffix_cons.
+    apply (line_comment_suffix (length t)). apply le_n.
+Qed.
+Lemma skip_ign_suffix : forall f s, suffix (skip_ignorables f s) s.
+Proof.
+  induction f as [|f IH]; intros s; cbn [skip_ignorables]; [apply suffix_refl|].
+  destruct (comment (skip_ws s)) as [r|] eqn:E; [|apply suffix_refl].
+  eapply suffix_trans; [apply IH|]. eapply suffix_trans; [apply comment_suffix; exact E | apply skip_ws_suffix].
+Qed.
+Lemma skip_filler_suffix : forall s, suffix (skip_filler s) s.
+Proof. intros s. unfold skip_filler. eapply suffix_trans; [apply skip_ws_suffix | apply skip_ign_suffix]. Qed.
+
+Lemma quoted_suffix : forall q s r, quoted q s = Some r -> suffix r s.
+Proof.
+  intros q s r H. unfold quoted in H. destruct s as [|c t]; [discriminate|]. destruct (ceq c q); [|discriminate].
+  match type of H with match span ?f t with _ => _ end = _ => pose proof (span_suffix f t) as S; destruct (span f t) as [|e r'] end; [discriminate|].
+  destruct (ceq e q); [|discriminate]. inversion H; subst. apply suffix_cons. eapply suffix_trans; [|exact S]. apply suffix_cons, suffix_refl.
+Qed.
+Lemma iq_body_suffix : forall f q s, suffix (iq_body f q s) s.
+Proof.
+  induction f as [|f IH]; intros q s; cbn [iq_body]; [apply suffix_refl|].
+  destruct s as [|c r]; [apply suffix_refl|].
+  destruct (ceq c q).
+  - destruct r as [|d r']; [apply suffix_refl|]. destruct (ceq d q); [apply suffix_cons, suffix_cons, IH | apply suffix_refl].
+  - destruct (Nat.eqb (code c) 92).
+    + destruct r as [|d r']; [apply suffix_refl|]. destruct (Nat.eqb (code d) 120).
+      * destruct r' as [|h r'']; [apply suffix_refl|]. destruct (is_hex h); [|apply suffix_refl].
+        apply suffix_cons, suffix_cons. eapply suffix_trans; [apply IH | apply span_suffix].
+      * apply suffix_cons, suffix_cons, IH.
+    + destruct (orb (Nat.eqb (code c) 10) (Nat.eqb (code c) 13)); [apply suffix_refl | apply suffix_cons, IH].
+Qed.
+Lemma iquoted_suffix : forall q s r, iquoted q s = Some r -> suffix r s.
+Proof.
+  intros q s r H. unfold iquoted in H. destruct s as [|c t]; [discriminate|]. destruct (ceq c q); [|discriminate].
+  pose proof (iq_body_suffix (length t) q t) as S. destruct (iq_body (length t) q t) as [|e r']; [discriminate|].
+  destruct (ceq e q); [|discriminate]. inversion H; subst. apply suffix_cons. eapply suffix_trans; [|exact S]. apply suffix_cons, suffix_refl.
+Qed.
+Lemma iquoted_any_suffix : forall s r, iquoted_any s = Some r -> suffix r s.
+Proof.
+  intros s r H. unfold iquoted_any in H. destruct (iquoted """"%char s) eqn:E.
+  - inversion H; subst. apply (iquoted_suffix _ _ _ E).
+  - apply (iquoted_suffix _ _ _ H).
+Qed.
+Lemma content_suffix : forall f o c s, suffix (content f o c s) s.
+Proof.
+  induction f as [|f IH]; intros o c s; cbn [content]; [apply suffix_refl|].
+  destruct s as [|x r]; [apply suffix_refl|]. destruct (orb (is_white x) (orb (ceq x o) (ceq x c))); [apply suffix_refl|].
+  destruct (iquoted_any (x :: r)); [apply suffix_refl | apply suffix_cons, IH].
+Qed.
+Lemma nested_body_suffix : forall (rec : chars -> option chars) o c, (forall s r, rec s = Some r -> suffix r s) ->
+  forall k t r, nested_body rec o c k t = Some r -> suffix r t.
+Proof.
+  intros rec o c Hrec. induction k as [|k IHk]; intros t r H; [discriminate|]. cbn [nested_body] in H.
+  destruct (iquoted_any (skip_ws t)) as [t2|] eqn:E1.
+  - eapply suffix_trans; [apply (IHk t2 r H)|]. eapply suffix_trans; [apply (iquoted_any_suffix _ _ E1) | apply skip_ws_suffix].
+  - destruct (rec (skip_ws t)) as [t2|] eqn:E2.
+    + eapply suffix_trans; [apply (IHk t2 r H)|]. eapply suffix_trans; [apply (Hrec _ _ E2) | apply skip_ws_suffix].
+    + destruct (Nat.ltb (length (content (length (skip_ws t)) o c (skip_ws t))) (length (skip_ws t))).
+      * eapply suffix_trans; [apply (IHk _ r H)|]. eapply suffix_trans; [apply content_suffix | apply skip_ws_suffix].
+      * pose proof (skip_ws_suffix t) as Sw. destruct (skip_ws t) as [|y t3]; [discriminate|]. destruct (ceq y c); [|discriminate].
+        inversion H; subst. eapply suffix_trans; [|exact Sw]. apply suffix_cons, suffix_refl.
+Qed.
+Lemma nested_suffix : forall f o c s r, nested f o c s = Some r -> suffix r s.
+Proof.
+  induction f as [|f IH]; intros o c s r H; [discriminate|]. cbn [nested] in H.
+  destruct s as [|x t]; [discriminate|]. destruct (ceq x o); [|discriminate].
+  apply suffix_cons. apply (nested_body_suffix (nested f o c) o c (fun s0 r0 => IH o c s0 r0) _ _ _ H).
+Qed.
+Lemma shorter_suffix : forall a b s, (forall r, a = Some r -> suffix r s) -> (forall r, b = Some r -> suffix r s) ->
+  forall r, shorter a b = Some r -> suffix r s.
+Proof.
+  intros a b s Ha Hb r H. unfold shorter in H. destruct a as [x|]; destruct b as [y|]; try discriminate.
+  - destruct (Nat.ltb (length y) (length x)); [apply Hb | apply Ha]; exact H.
+  - apply Ha. exact H.
+  - apply Hb. exact H.
+Qed.
+Lemma fold_shorter_suffix : forall l init s, (forall r, init = Some r -> suffix r s) ->
+  Forall (fun a => forall r, a = Some r -> suffix r s) l -> forall r, fold_left shorter l init = Some r -> suffix r s.
+Proof.
+  induction l as [|a l IH]; intros init s Hi Hl r H; cbn [fold_left] in H; [apply Hi; exact H|].
+  inversion Hl; subst. apply (IH (shorter init a) s); try assumption. apply shorter_suffix; assumption.
+Qed.
+Lemma piece_suffix : forall s r, piece s = Some r -> suffix r s.
+Proof.
+  intros s r H. unfold piece in H. eapply suffix_trans; [|apply skip_ws_suffix].
+  set (t := skip_ws s) in *.
+  apply (fold_shorter_suffix _ _ t) in H; [exact H | intros x Hx; apply (quoted_suffix _ _ _ Hx)|].
+  repeat constructor; intros x Hx; try (apply (nested_suffix _ _ _ _ _ Hx)); try (apply (quoted_suffix _ _ _ Hx)).
+  destruct (Nat.ltb (length (span is_wordchar t)) (length t)); [|discriminate]. inversion Hx; subst. apply span_suffix.
+Qed.
+Lemma pieces_suffix : forall f s, suffix (pieces f s) s.
+Proof.
+  induction f as [|f IH]; intros s; cbn [pieces]; [apply suffix_refl|].
+  destruct (piece (skip_ignorables (length s) s)) as [r|] eqn:E; [|apply suffix_refl].
+  eapply suffix_trans; [apply IH|]. eapply suffix_trans; [apply (piece_suffix _ _ E) | apply skip_ign_suffix].
+Qed.
+
+Definition Traced (st : pst) (o : outcome) : Prop :=
+  match o with
+  | Match its st' => exists tr : trace, Cov (rest st) (map snd tr) (rest st') /\ kept tr = leaves its
+  | _ => True
+  end.
+
+Lemma chars_string : forall l, chars_of (string_of l) = l.
+Proof. induction l as [|c r IH]; [reflexivity|]. cbn. rewrite IH. reflexivity. Qed.
+
+Lemma prefix_split : forall p s r, prefix p s = Some r -> s = p ++ r.
+Proof.
+  induction p as [|a p IH]; intros s r H; [cbn in H; inversion H; reflexivity|].
+  destruct s as [|b s]; [discriminate|]. cbn [prefix] in H. destruct (ceq a b) eqn:E; [|discriminate].
+  apply Ascii.eqb_eq in E. subst b. cbn [app]. f_equal. apply IH. exact H.
+Qed.
+
+Lemma span_split : forall f s, s = firstn (length s - length (span f s)) s ++ span f s.
+Proof.
+  intros f s. induction s as [|c r IH]; [reflexivity|]. cbn [span]. destruct (f c).
+  - assert (L : length (span f r) <= length r).
+    { clear IH. induction r as [|d r IH]; [cbn; lia|]. cbn [span]. destruct (f d); cbn [length]; lia. }
+    cbn [length]. replace (S (length r) - length (span f r)) with (S (length r - length (span f r))) by lia.
+    cbn [firstn app]. f_equal. exact IH.
+  - rewrite Nat.sub_diag. reflexivity.
+Qed.
+
+Lemma pre_cov : forall st l r, Cov (rest (pre st)) l r -> Cov (rest st) l r.
+Proof.
+  intros st l r H. unfold pre, moved in H. destruct (Nat.ltb (length (skip_filler (rest st))) (length (rest st))) eqn:E; cbn [rest] in H.
+  - apply Cov_fill. exact H.
+  - exact H.
+Qed.
+Lemma pre_term_cov : forall t st l r, Cov (rest (pre_term t st)) l r -> Cov (rest st) l r.
+Proof.
+  intros t st l r H. destruct t; cbn [pre_term] in H; try (apply pre_cov; exact H).
+  unfold moved in H. destruct (Nat.ltb _ _); cbn [rest] in H; [apply Cov_ign; exact H | exact H].
+Qed.
+
+Lemma one_token : forall (t r : chars), Cov (t ++ r) [t] r.
+Proof. intros. apply Cov_tok. apply Cov_done. Qed.
+
+Lemma run_term_traced : forall t st, Traced st (run_term t st).
+Proof.
+  intros t st. unfold run_term. destruct t as [l|k|i b|cs| |].
+  - destruct (prefix (chars_of l) (rest (pre_term (TLit l) st))) as [r|] eqn:E; [|exact I].
+    apply prefix_split in E. exists [(true, chars_of l)]. split; [|reflexivity].
+    apply (pre_term_cov (TLit l)). cbn [map snd rest]. rewrite E. apply Cov_tok. apply Cov_done.
+  - destruct (prefix (chars_of k) (rest (pre_term (TKw k) st))) as [r|] eqn:E; [|exact I].
+    destruct (andb _ _); [|exact I].
+    apply prefix_split in E. exists [(true, chars_of k)]. split; [|reflexivity].
+    apply (pre_term_cov (TKw k)). cbn [map snd rest]. rewrite E. apply Cov_tok. apply Cov_done.
+  - destruct (rest (pre_term (TWord i b) st)) as [|c r] eqn:E; [exact I|]. destruct (cmem c (chars_of i)); [|exact I].
+    set (f := fun x => cmem x (chars_of b)). set (s := c :: r).
+    exists [(true, firstn (length s - length (span f r)) s)]. split.
+    + apply (pre_term_cov (TWord i b)). rewrite E. cbn [map snd rest after]. fold s.
+      assert (X : s = firstn (length s - length (span f r)) s ++ span f r).
+      { unfold s. pose proof (span_split f r) as Y.
+        assert (L : length (span f r) <= length r).
+        { clear. induction r as [|d r IH]; [cbn; lia|]. cbn [span]. destruct (f d); cbn [length]; lia. }
+        cbn [length]. replace (S (length r) - length (span f r)) with (S (length r - length (span f r))) by lia.
+        cbn [firstn app]. f_equal. exact Y. }
+      rewrite X at 1. apply Cov_tok. apply Cov_done.
+    + cbn [kept filter fst map snd leaves flat_map leaves_v app]. rewrite chars_string. reflexivity.
+  - set (s := rest (pre_term (TNotIn cs) st)). set (f := fun x => negb (cmem x (chars_of cs))).
+    destruct (Nat.ltb (length (span f s)) (length s)); [|exact I].
+    exists [(true, firstn (length s - length (span f s)) s)]. split.
+    + apply (pre_term_cov (TNotIn cs)). fold s. cbn [map snd rest after]. rewrite (span_split f s) at 1. apply Cov_tok. apply Cov_done.
+    + cbn [kept filter fst map snd leaves flat_map leaves_v app]. rewrite chars_string. reflexivity.
+  - set (s := rest (pre_term TDefault st)). destruct (default_arg s) as [[text r]|] eqn:E; [|exact I].
+    unfold default_arg in E. destruct (piece (skip_filler s)) as [r0|] eqn:P; [|discriminate]. inversion E; subst text r. clear E.
+    set (s1 := skip_filler s) in *. set (e := pieces (length r0) r0) in *.
+    exists [(true, firstn (length s1 - length e) s1)]. split.
+    + apply (pre_term_cov TDefault). fold s. cbn [map snd rest after]. apply Cov_fill. fold s1.
+      (* e is a suffix of s1 *)
+      assert (Suf : exists u, s1 = u ++ e).
+      { unfold e. eapply suffix_trans; [apply pieces_suffix | apply (piece_suffix _ _ P)]. }
+      destruct Suf as [u Hu]. assert (X : firstn (length s1 - length e) s1 = u).
+      { rewrite Hu. rewrite app_length. replace (length u + length e - length e) with (length u) by lia.
+        rewrite firstn_app, Nat.sub_diag, firstn_all. cbn. apply app_nil_r. }
+      rewrite X. rewrite Hu at 1. apply Cov_tok. apply Cov_done.
+    + cbn [kept filter fst map snd leaves flat_map leaves_v app]. rewrite chars_string. reflexivity.
+  - destruct (rest (pre_term TEnd st)) eqn:E; [|exact I]. exists []. split; [|reflexivity].
+    apply (pre_term_cov TEnd). rewrite E. apply Cov_done.
+Qed.
+
+(* ---------- combinators and the interpreter ---------- *)
+Lemma traced_intro : forall st its st' tr, Cov (rest st) (map snd tr) (rest st') -> kept tr = leaves its -> Traced st (Match its st').
+Proof. intros. exists tr. split; assumption. Qed.
+
+Section Tr.
+  Variable rec : gexpr -> pst -> outcome.
+  Hypothesis Hrec : forall e st, Traced st (rec e st).
+
+  Lemma seq_traced : forall l acc st0 st tr0, Cov (rest st0) (map snd tr0) (rest st) -> kept tr0 = leaves acc ->
+    Traced st0 (seq rec l acc st).
+  Proof.
+    induction l as [|x r IH]; intros acc st0 st tr0 Hc Hk; cbn [seq].
+    - exists tr0. split; assumption.
+    - pose proof (Hrec x st) as H. destruct (rec x st) as [| |its st1]; try exact I.
+      destruct H as [tr [C K]]. apply (IH (acc ++ its) st0 st1 (tr0 ++ tr)).
+      + rewrite map_app. eapply Cov_app; eassumption.
+      + rewrite kept_app, leaves_app, Hk, K. reflexivity.
+  Qed.
+
+  Lemma alt_longest_traced : forall l st best, Traced st best -> Traced st (alt_longest rec st l best).
+  Proof.
+    induction l as [|x r IH]; intros st best Hb; cbn [alt_longest]; [exact Hb|].
+    pose proof (Hrec x st) as H. destruct (rec x st) as [| |its st1]; [apply IH; exact Hb | exact I |].
+    destruct best as [| |i0 s0]; try (apply IH; exact H).
+    destruct (Nat.ltb (length (rest st1)) (length (rest s0))); apply IH; assumption.
+  Qed.
+
+  Lemma alt_first_traced : forall l st, Traced st (alt_first rec st l).
+  Proof.
+    induction l as [|x r IH]; intros st; cbn [alt_first]; [exact I|].
+    pose proof (Hrec x st) as H. destruct (rec x st) as [| |its st1]; [apply IH | exact I | exact H].
+  Qed.
+
+  Lemma star_traced : forall k x acc st0 st tr0, Cov (rest st0) (map snd tr0) (rest st) -> kept tr0 = leaves acc ->
+    Traced st0 (star rec k x acc st).
+  Proof.
+    induction k as [|k IH]; intros x acc st0 st tr0 Hc Hk; cbn [star]; [exact I|].
+    pose proof (Hrec x st) as H. destruct (rec x st) as [| |its st1]; [exists tr0; split; assumption | exact I |].
+    destruct H as [tr [C K]]. apply (IH x (acc ++ its) st0 st1 (tr0 ++ tr)).
+    - rewrite map_app. eapply Cov_app; eassumption.
+    - rewrite kept_app, leaves_app, Hk, K. reflexivity.
+  Qed.
+End Tr.
+
+Theorem interp_traced : forall rt g, (forall t st, Traced st (rt t st)) ->
+  forall f e st, Traced st (interp_with rt g f e st).
+Proof.
+  intros rt g Hrt. induction f as [|f IH]; intros e st; cbn [interp_with]; [exact I|].
+  destruct e as [t|l|l|l|x|x|x|n x|r].
+  - apply Hrt.
+  - apply (seq_traced _ IH l [] st st []); [apply Cov_done | reflexivity].
+  - apply (alt_longest_traced _ IH). exact I.
+  - apply (alt_first_traced _ IH).
+  - pose proof (IH x st) as H. destruct (interp_with rt g f x st); try exact H.
+    exists []. split; [apply Cov_done | reflexivity].
+  - apply (star_traced _ IH f x [] st st []); [apply Cov_done | reflexivity].
+  - pose proof (IH x st) as H. destruct (interp_with rt g f x st) as [| |its st1]; try exact H.
+    destruct H as [tr [C K]]. exists (hide tr). split; [rewrite texts_hide; exact C | rewrite kept_hide; reflexivity].
+  - pose proof (IH x st) as H. destruct (interp_with rt g f x st) as [| |its st1]; try exact H.
+    destruct H as [tr [C K]]. exists tr. split; [exact C | rewrite leaves_names; exact K].
+  - destruct (lookup g r) as [body|]; [|exact I].
+    pose proof (IH body st) as H. destruct (interp_with rt g f body st) as [| |its st1]; try exact H.
+    destruct H as [tr [C K]]. exists tr. split; [exact C|]. unfold leaves. cbn [flat_map snd]. rewrite leaves_node, app_nil_r. exact K.
+Qed.
+
+Lemma seq_last : forall rec l x acc st its st', seq rec (l ++ [x]) acc st = Match its st' ->
+  exists st1 i2, rec x st1 = Match i2 st'.
+Proof.
+  intros rec. induction l as [|y l IH]; intros x acc st its st' H; cbn [app seq] in H.
+  - destruct (rec x st) as [| |i2 s2] eqn:E; try discriminate. inversion H; subst. exists st, i2. exact E.
+  - destruct (rec y st) as [| |i1 s1]; try discriminate. apply (IH x _ s1 its st' H).
+Qed.
+
+(* Module.parseString: an accepted text is covered to its very end *)
+Theorem accepted_is_covered : forall g fuel text its st',
+  lookup g "Module" = Some (GAnd [GRef "ModuleContent"; GTerm TEnd]) ->
+  parse_text g fuel text = Match its st' ->
+  exists tr : trace, Cov (expandtabs (chars_of text)) (map snd tr) [] /\ kept tr = leaves its.
+Proof.
+  intros g fuel text its st' Hm H. unfold parse_text in H.
+  pose proof (interp_traced run_term g run_term_traced fuel (GRef "Module") {| pk := false; rest := expandtabs (chars_of text) |}) as T.
+  unfold interp in H. rewrite H in T. destruct T as [tr [C K]]. cbn [rest] in C.
+  assert (E : rest st' = []).
+  { destruct fuel as [|f]; [discriminate|]. cbn [interp_with] in H. rewrite Hm in H.
+    destruct (interp_with run_term g f (GAnd [GRef "ModuleContent"; GTerm TEnd]) {| pk := false; rest := expandtabs (chars_of text) |}) as [| |i1 s1] eqn:E1; try discriminate.
+    inversion H; subst. destruct f as [|f]; [discriminate|]. cbn [interp_with] in E1.
+    change [GRef "ModuleContent"; GTerm TEnd] with ([GRef "ModuleContent"] ++ [GTerm TEnd]) in E1.
+    apply seq_last in E1. destruct E1 as [s2 [i2 E2]]. destruct f as [|f]; [discriminate|]. cbn [interp_with] in E2.
+    unfold run_term in E2. cbn [pre_term] in E2. destruct (rest (pre s2)) eqn:E3; [|discriminate]. inversion E2; subst. exact E3. }
+  rewrite E in C. exists tr. split; assumption.
 Qed.
